@@ -1,17 +1,24 @@
 import XlVerif.Model.C20
 import XlVerif.Spec.C20
 /-!
-  Driver for C20.  Requests (`C20` already stripped), numbers as `n/d` or `n`, lists as `L:q1,q2,…`:
+  Driver for C20.  Requests (`C20` already stripped), numbers as `n/d` or `n`, lists as `L:q1,q2,…`.
 
-  * `NPV rate L:values`                → `impl=<res> spec=<q> gross=<q>`
-  * `PMT rate nper pv fv type`         → `impl=<res> spec=<q|-> closed=<q>`   (spec: solution of the annuity recursion)
-  * `PV rate nper pmt fv type`         → `impl=<res> spec=<q|-> closed=<q>`
+  Value requests end with two optional fields `<real> <tol>`: the real code's result as an exact
+  rational (`-` if it is not a finite number) and the relative tolerance.  The response is
+  `impl=<model outcome> spec=<reference value|-> cmp=<ok|bad|na> cmpi=<ok|bad|na>` where `cmp` is the
+  exact decision `|real − spec| ≤ tol · max(gross, |spec|)` (`gross` = the same formula on absolute
+  values: the size of the terms whose rounding errors add up), `cmpi` the same against the model;
+  `impl`/`spec` numbers are printed rounded to 15 decimals (display only).
+
+  * `NPV rate L:values [real tol]`
+  * `PMT rate nper pv fv type [real tol]`   (spec: solution of the annuity recursion, see `recursionLimit`)
+  * `PV rate nper pmt fv type [real tol]`
+  * `SLN cost salvage life [real tol]`
+  * `XNPV rate L:values L:dates L:weights [real tol]`; `weights[i]` is the harness-supplied value of
+        `(1+rate) ** ((dates[i]-dates[0])/365)` (the uninterpreted power of the model)
   * `PVPMT rate nper pv fv`            → `impl=<res>` of PV(rate,nper,PMT(rate,nper,pv,fv),fv)
-  * `SLN cost salvage life`            → `impl=<res> spec=<q|->`
-  * `XNPV rate L:values L:dates L:weights` → `impl=<res> spec=<q>`; `weights[i]` is the harness-supplied
-        value of `(1+rate) ** ((dates[i]-dates[0])/365)` (the uninterpreted power of the model)
-  * `IRRCERT r eps L:flows`            → `dom=<0|1> lo=<sign> hi=<sign>`: signs of the NPV of the flows at
-        `r-eps` and `r+eps`, computed exactly; `impl` and `spec` NPV agree is reported as `agree=<0|1>`
+  * `IRRCERT r eps L:flows`            → `dom=<0|1> lo=<sign> hi=<sign> agree=<0|1>`: signs of the NPV of the
+        flows at `r-eps` and `r+eps`, computed exactly; `agree`: model NPV = reference NPV at both points
   * `XIRRCERT L:values L:dates L:wlo L:whi` → `dom=… lo=<sign> hi=<sign>` with the weights at `r∓eps` supplied
   * `XIRRPREP L:values L:dates`        → `vals=L:… dates=L:…` the rows the model hands to the solver
 -/
@@ -52,47 +59,97 @@ def offsets (dates : List Rat) : List Rat :=
 
 def boolStr (b : Bool) : String := if b then "1" else "0"
 
+/-- up to this many periods the reference value of PV/PMT is computed from the annuity recursion
+    itself (`Spec.C20.solvePV/solvePMT`); beyond it from the closed form, which the theorems
+    `solvePV_eq` / `solvePMT_eq` prove equal (exact rationals with 20 000-bit denominators make the
+    recursion slow, not different). -/
+def recursionLimit : Nat := 64
+
 def natOf? (q : Rat) : Option Nat := if q.den = 1 ∧ 0 ≤ q.num then some q.num.toNat else none
 
-def handle (fields : List String) : String :=
+/-- a short exact rational close to `q` (15 decimals), for display only: printing the 20 000-bit
+    numerators of exact annuity values would dominate the run time -/
+def approx (q : Rat) : String :=
+  let p : Rat := 1000000000000000
+  "F:" ++ ratWire ((q * p).floor / p)
+
+def showResA : Res → String
+  | .ok q => approx q
+  | r => showRes r
+
+/-- `|real − x| ≤ tol · max(gross, |x|)`, decided exactly -/
+def closeTo (real x gross tol : Rat) : Bool :=
+  let scale := if gross < absQ x then absQ x else gross
+  decide (absQ (real - x) ≤ tol * scale)
+
+/-- judge a real numeric result against the reference value and the model outcome -/
+def judge (real tol : Option Rat) (impl : Res) (spec : Option Rat) (gross : Rat) : String :=
+  let cmpS := match real, tol, spec with
+    | some x, some t, some s => if closeTo x s gross t then "ok" else "bad"
+    | none, _, some _ => "bad"
+    | _, _, _ => "na"
+  let cmpI := match real, tol, impl with
+    | some x, some t, .ok i => if closeTo x i gross t then "ok" else "bad"
+    | none, _, .ok _ => "bad"
+    | _, _, _ => "na"
+  kv [("impl", showResA impl), ("spec", match spec with | some s => approx s | none => "-"),
+      ("cmp", cmpS), ("cmpi", cmpI)]
+
+/-- trailing request fields `<real> <tol>`: the real result as an exact rational (or `-` when it is
+    not a finite number) and the relative tolerance -/
+def realTol : List String → Option Rat × Option Rat
+  | [real, tol] => (parseRat? real, parseRat? tol)
+  | _ => (none, none)
+
+def handleValue (fields : List String) : Option String :=
   match fields with
-  | ["NPV", rate, values] =>
+  | "NPV" :: rate :: values :: rest =>
     match parseRat? rate, parseL? values with
     | some r, some vs =>
-      kv [("impl", showRes (NPV r vs)), ("spec", showQ (Spec.C20.npv r vs)),
-          ("gross", showQ (Spec.C20.npv r (vs.map absQ)))]
-    | _, _ => "error=bad-args"
-  | ["PMT", rate, nper, pv, fv, type] =>
+      let (real, tol) := realTol rest
+      some (judge real tol (NPV r vs) (some (Spec.C20.npv r vs)) (Spec.C20.npv r (vs.map absQ)))
+    | _, _ => some "error=bad-args"
+  | "PMT" :: rate :: nper :: pv :: fv :: type :: rest =>
     match parseRat? rate, (parseRat? nper).bind natOf?, parseRat? pv, parseRat? fv, parseRat? type with
     | some r, some n, some p, some f, some t =>
-      let spec := if n = 0 ∨ r ≤ -1 then "-" else showQ (Spec.C20.solvePMT r n p f false)
-      kv [("impl", showRes (PMT r n p f t)), ("spec", spec), ("closed", showQ (Spec.C20.pmtClosed r n p f 0))]
-    | _, _, _, _, _ => "error=bad-args"
-  | ["PV", rate, nper, pmt, fv, type] =>
+      let (real, tol) := realTol rest
+      let spec := if n = 0 ∨ r ≤ -1 then none else
+        some (if n ≤ recursionLimit then Spec.C20.solvePMT r n p f false else Spec.C20.pmtClosed r n p f 0)
+      some (judge real tol (PMT r n p f t) spec (absQ (Spec.C20.pmtClosed r n (absQ p) (absQ f) 0)))
+    | _, _, _, _, _ => some "error=bad-args"
+  | "PV" :: rate :: nper :: pmt :: fv :: type :: rest =>
     match parseRat? rate, (parseRat? nper).bind natOf?, parseRat? pmt, parseRat? fv, parseRat? type with
     | some r, some n, some p, some f, some t =>
-      let spec := if r = -1 ∨ ¬ (t = 0 ∨ t = 1) then "-" else showQ (Spec.C20.solvePV r n p f (t == 1))
-      kv [("impl", showRes (PV r n p f (.flt t))), ("spec", spec), ("closed", showQ (Spec.C20.pvClosed r n p f t))]
-    | _, _, _, _, _ => "error=bad-args"
+      let (real, tol) := realTol rest
+      let spec := if r = -1 ∨ ¬ (t = 0 ∨ t = 1) then none else
+        some (if n ≤ recursionLimit then Spec.C20.solvePV r n p f (t == 1) else Spec.C20.pvClosed r n p f t)
+      some (judge real tol (PV r n p f (.flt t)) spec (absQ (Spec.C20.pvClosed r n (absQ p) (absQ f) t)))
+    | _, _, _, _, _ => some "error=bad-args"
+  | "SLN" :: cost :: salvage :: life :: rest =>
+    match parseRat? cost, parseRat? salvage, parseRat? life with
+    | some c, some s, some l =>
+      let (real, tol) := realTol rest
+      let gross := if l = 0 then 0 else (absQ c + absQ s) / absQ l
+      some (judge real tol (SLN c s l) (if l > 0 then some (Spec.C20.sln c s l) else none) gross)
+    | _, _, _ => some "error=bad-args"
+  | "XNPV" :: rate :: values :: dates :: weights :: rest =>
+    match parseRat? rate, parseL? values, parseL? dates, parseL? weights with
+    | some r, some vs, some ds, some ws =>
+      let (real, tol) := realTol rest
+      let w := tableW (offsets ds) ws
+      some (judge real tol (XNPV w r vs ds) (some (Spec.C20.xnpv (w (1 + r)) vs ds))
+        (Spec.C20.xnpv (w (1 + r)) (vs.map absQ) ds))
+    | _, _, _, _ => some "error=bad-args"
+  | _ => none
+
+def handleCert (fields : List String) : String :=
+  match fields with
   | ["PVPMT", rate, nper, pv, fv] =>
     match parseRat? rate, (parseRat? nper).bind natOf?, parseRat? pv, parseRat? fv with
     | some r, some n, some p, some f =>
       match PMT r n p f 0 with
-      | .ok pmt => kv [("impl", showRes (PV r n pmt f (.int 0))), ("pmt", showQ pmt)]
+      | .ok pmt => kv [("impl", showResA (PV r n pmt f (.int 0))), ("pmt", approx pmt)]
       | other => kv [("impl", showRes other)]
-    | _, _, _, _ => "error=bad-args"
-  | ["SLN", cost, salvage, life] =>
-    match parseRat? cost, parseRat? salvage, parseRat? life with
-    | some c, some s, some l =>
-      kv [("impl", showRes (SLN c s l)), ("spec", if l > 0 then showQ (Spec.C20.sln c s l) else "-")]
-    | _, _, _ => "error=bad-args"
-  | ["XNPV", rate, values, dates, weights] =>
-    match parseRat? rate, parseL? values, parseL? dates, parseL? weights with
-    | some r, some vs, some ds, some ws =>
-      let ts := offsets ds
-      let w := tableW ts ws
-      kv [("impl", showRes (XNPV w r vs ds)), ("spec", showQ (Spec.C20.xnpv (w (1 + r)) vs ds)),
-          ("gross", showQ (Spec.C20.xnpv (w (1 + r)) (vs.map absQ) ds))]
     | _, _, _, _ => "error=bad-args"
   | ["IRRCERT", rate, eps, flows] =>
     match parseRat? rate, parseRat? eps, parseL? flows with
@@ -119,5 +176,10 @@ def handle (fields : List String) : String :=
       kv [("vals", showL (s.map (·.1))), ("dates", showL (s.map (·.2)))]
     | _, _ => "error=bad-args"
   | _ => "error=bad-request"
+
+def handle (fields : List String) : String :=
+  match handleValue fields with
+  | some r => r
+  | none => handleCert fields
 
 end XlVerif.Drv.C20
